@@ -305,3 +305,59 @@ ADDENDA = {
             "gated reachability"),
 }
 
+
+
+# Round 5 and the triage of its authors' observations (DESIGN.md sections 8 and 9).  Appended to ADDENDA by gen_manifest.
+ADDENDA_R5 = {
+    "C02": ("R02.7, R02.8",
+            "verify_const = false is emitted only after the _NonConst `this` extractor; a Python allocation with a run-time size is tested for NULL before use (found F-C02b: MAKE_SEQ with a negative length crashed the interpreter)",
+            "emission-order lint over the generator's string literals"),
+    "C04": ("R04.10, R04.11, visibility gate of R04.2 for properties/sequences",
+            "__make_property/__make_seq declarations pass the visibility test like every other member, their accessors must be accessible (found F-C04b); the command-file reader does not drop an unterminated last line (found F-C04a)",
+            "sibling agreement over the arms of the member loop"),
+    "C05": ("R05.8, R05.9",
+            "each base_specification alternative records the access and virtual-ness its own keywords say, all combinations exist (found F-C06f); an accessor is synthesised only if neither the scanned functions nor the declaring scope hold its name (found F-C05b)",
+            "grammar reader cross-checked with the compiled parser"),
+    "C06": ("R06.8-R06.11",
+            "lookups on a base class's scope do not recurse outwards; the literal operator recorded in a user-defined literal is not a known-null local (found F-C06g); every member a CPPExpression factory fills is printed by output() (found F-C06h); a sign is not joined to an operand text that begins with the same sign (found F-C06i)",
+            "contradiction rule (definitely-null argument); per-variant printer completeness"),
+    "C07": ("R07.13, cast clause of R07.3",
+            "operands are not evaluated in another signedness or width than C++'s; every type-trait production hands its own keyword and all its operands to type_trait() (found F-C07j: __is_base_of was __is_class)",
+            "grammar table agreement"),
+    "C09": ("R09.5-R09.7",
+            "the rescan of a replacement list keeps the #if mode; directive scanners do not cross the end of the line (found F-C09b: the null directive); the skipper steps over string and character literals (found F-C09c)",
+            "loop-condition structure of hand-written scanners"),
+    "C10": ("R10.4 corrected, R10.6, R10.7",
+            "override matching ignores exactly what C++ ignores (override, final, noexcept, trailing-return spelling) and compares cv-/ref-qualification; type equivalence unwraps a typedef on either side; top-level const of a parameter is dropped on both sides (found F-C10e/f/g)",
+            "expression-tree evaluation of the flag test over all flag pairs"),
+    "C11": ("R11.7, R11.8",
+            "no index that can be 0 is appended to a type's lists untested (found F-C11b); the next_index written into generated code is not taken before the renumbering (F-C11c, known)",
+            "call graph with virtual overriders; producer discovery from `return 0`"),
+    "C12": ("identifier clause of R12.4",
+            "read() is unreachable from the file-identifier mismatch edge as well (found F-C12b: the file was merged after the report)",
+            "edge-cut reachability"),
+    "C13": ("R13.5",
+            "in merge_from the type mapping is complete before any record is translated; merge_with keeps the fully defined side and, of two, the global one",
+            "CFG ordering between add_mapping and remap_indices"),
+    "C14": ("R14.7",
+            "the evaluator never turns the address of a parser object into a value (Result(void *) only from nullptr / as_pointer())",
+            "constructor-argument provenance"),
+    "C15": ("R15.15-R15.20",
+            "no throwing standard conversion; nullable pointer members (_initializer, array _bounds, _cpptype of a looked-up type) are dereferenced only behind a null test or a checked premise; expression-carrying tokens are built with an expression; a class is never listed in its own scope (found and fixed F-C15l-p)",
+            "nullable-field dereference analysis with premise obligations"),
+    "C16": ("R16.4",
+            "the dependency-cycle search expands every library at most once (found F-C16b: exponential time)",
+            "visited-set discipline of a recursive DFS"),
+    "C17": ("R17.6, R17.7",
+            "realpath() is applied to the whole name; find_include's own probes cannot be satisfied by a directory (found F-C17b)",
+            "probe classification"),
+    "C18": ("R18.6",
+            "GrisuRound's weeding condition agrees with Grisu2's on a grid",
+            "expression-tree evaluation on a grid"),
+    "C19": ("phase G of o2",
+            "a file stream that was flushed and tested but never closed is not finished",
+            "typestate over stream phases"),
+    "C20": ("R20.9",
+            "the fptr table is read only by get_fptr(); the unique-name lookup does not depend on it",
+            "who-may-read"),
+}
